@@ -715,16 +715,20 @@ fn get_where_filters(params: &EntityParams, prepared_query: &mut SingleQuery, t:
                                 }
                                 ParamValue::String(v) => {
                                     tab(&mut q, t + 1);
+                                    //the default value is bound like any other text value:
+                                    //writing it between quotes breaks the statement when it contains a quote
+                                    let default = prepared_query.add_param(String::from(v), true);
                                     q.push_str(&format!(
-                                        "WHEN '{}' {} {} THEN ",
-                                        v, operation, &value
+                                        "WHEN {} {} {} THEN ",
+                                        default, operation, &value
                                     ));
                                 }
                                 ParamValue::Binary(v) => {
                                     tab(&mut q, t + 1);
+                                    let default = prepared_query.add_param(String::from(v), true);
                                     q.push_str(&format!(
-                                        "WHEN '{}' {} {} THEN ",
-                                        v, operation, &value
+                                        "WHEN {} {} {} THEN ",
+                                        default, operation, &value
                                     ));
                                 }
                                 _ => unreachable!(),
